@@ -285,8 +285,8 @@ def keys_body(cfg, k0, k1, k2, ts, ls, q):
 
 
 DN = {None: "ws", ",": "comma", "\t": "tab", " ": "sp"}
-SHAPES = {"snap": {2: [(None, None)], 3: [(None, None, None), ("valid3", None, None)]},
-          "int": {2: [(None, None), ("plus", None)], 3: [(None, None, None), ("plus", "minus", None), ("plus", None, None)]}}
+SHAPES = {"snap": {2: [(None, None)], 3: [("valid3", None, None), ("valid4", None, None)]},
+          "int": {2: [(None, None), ("plus", None)], 3: [("plus", "minus", None), ("plus", None, None)]}}
 for fmt, body_, nk in (("snap", snap_body, len(SNAP_KINDS)), ("int", int_body, len(INT_KINDS))):
     for directed in (False, True):
         for d in (None, ",", "\t", " "):
@@ -298,7 +298,7 @@ for fmt, body_, nk in (("snap", snap_body, len(SNAP_KINDS)), ("int", int_body, l
                             continue
                         REG.add("%s_%s_d%s_c%s_r%d_s%d" % (fmt, "d" if directed else "u", DN[d], "h" if cm == "#" else "p", rows, si),
                                 T_rows, body_, cfg=dict(delimiter=d, comments=cm, rows=rows, directed=directed, fixed=shape),
-                                tier="quick" if quick else "thorough", timeout=900 if quick else 3000,
+                                tier="quick" if quick else "thorough", timeout=900 if quick else 1800,
                                 tags=["noise_trailing", "noise_extra", "noise_comment"], twins=1,
                                 bounds="%d rows %r (None = any of the %d grammar kinds, symbolic selector), delimiter %r, comment marker "
                                        "%r, unbounded symbolic timestamps (4-column spans 1..2), %s" %
